@@ -93,7 +93,7 @@ theorem extend_next (st : BState V) (r : NodeRec) : (extend st r).next = st.next
 theorem good_setEnv {interp : Interp V} {st : BState V} {vals vals' : List V} (hg : Good interp st vals)
     (e : List Ref) (hs : Sees ({ st with env := e } : BState V) (den (st.cfg interp)) vals') :
     Good interp ({ st with env := e } : BState V) vals' :=
-  ⟨hg.fresh, hg.nlt, hg.rlt, hg.sorted, hg.ninit, hs⟩
+  ⟨hg.fresh, hg.nlt, hg.rlt, hg.sorted, hg.ninit, hg.norec, hs⟩
 
 /-- an environment seen at `st` is still seen after the table grew -/
 theorem sees_grows {interp : Interp V} {st st' : BState V} {vals : List V}
@@ -230,11 +230,12 @@ theorem shows_den {interp : Interp V} {st stF : BState V} {vals : List V} (hg : 
 theorem good_of_ext {interp : Interp V} {st st' : BState V} {vals : List V} (hg : Good interp st vals)
     (h : Ext st st') : Good interp st' vals := by
   have hgr := grows_of_ext hg h
-  refine ⟨h.above hg.fresh, ?_, ?_, ?_, ?_, ?_⟩
+  refine ⟨h.above hg.fresh, ?_, ?_, ?_, ?_, ?_, ?_⟩
   · intro n hn; rw [h.nodes] at hn; exact Nat.lt_of_lt_of_le (hg.nlt n hn) h.next
   · intro n hn r hr; rw [h.nodes] at hn; rw [h.recOf] at hr; exact hg.rlt n hn r hr
   · rw [h.nodes]; exact hg.sorted
   · intro n hn; rw [h.nodes] at hn; rw [h.below n (hg.nlt n hn)]; exact hg.ninit n hn
+  · intro n hn; rw [h.nodes] at hn; rw [h.recOf]; exact hg.norec n hn
   · have := sees_grows hg.sees hgr
     have he : ({ st' with env := st.env } : BState V) = st' := by
       cases st'; simp only [BState.mk.injEq, true_and]; exact h.env.symm
